@@ -12,7 +12,7 @@ import traceback
 from .pm import AnalysisError, Program
 from .report import Check, finish
 
-CLAIMED = ["C01", "C02", "C03", "C06", "C07", "C08", "C09", "C10", "C11", "C12", "C13", "C14", "C15", "C16", "C17",
+CLAIMED = ["C01", "C02", "C03", "C04", "C05", "C06", "C07", "C08", "C09", "C10", "C11", "C12", "C13", "C14", "C15", "C16", "C17",
            "C18", "C19", "C20"]
 
 
